@@ -151,7 +151,9 @@ pub trait OperandHandler {
         ident_provider: &mut dyn IdentProvider,
         ident_kind: IdentKind,
     ) {
-        if binary_op != BinaryOp::Add {
+        // a literal-only sum ("a" + "b") is never instrumented itself: it is an operand like any
+        // other one and must not be omitted (nor spliced without parentheses into the outer sum)
+        if binary_op != BinaryOp::Add || is_literal_sum(operand) {
             Self::replace_default(
                 operand,
                 assignations,
@@ -161,6 +163,18 @@ pub trait OperandHandler {
                 ident_kind,
             );
         }
+    }
+}
+
+pub fn is_literal_sum(expr: &Expr) -> bool {
+    match expr {
+        Expr::Lit(_) => true,
+        Expr::Bin(binary) => {
+            binary.op == BinaryOp::Add
+                && is_literal_sum(&binary.left)
+                && is_literal_sum(&binary.right)
+        }
+        _ => false,
     }
 }
 
